@@ -32,6 +32,7 @@ def main():
     tier = "quick"
     skip_ctest = False
     props = [pid]
+    demo_flags = ""
     while a:
         x = a.pop(0)
         if x == "--wt":
@@ -44,6 +45,8 @@ def main():
             skip_ctest = True
         elif x == "--props":
             props += a.pop(0).split(",")
+        elif x == "--demo-flags":  # e.g. -fsanitize=thread when the demonstration is a data-race report
+            demo_flags = a.pop(0).replace("+", " ")
     out = os.path.join(ROOT, "seeded", name)
     os.makedirs(out, exist_ok=True)
     meta = {"property": pid, "worktree": wt, "confirmed_at": time.strftime("%Y-%m-%d %H:%M:%S"), "steps": {}}
@@ -93,7 +96,7 @@ def main():
         for label, inc in (("pristine", pristine), ("patched", wt)):
             exe = f"/tmp/confirm-demo-{pid}-{label}"
             extra = f"-I{inc}/test/bundled" if "doctest" in open(demo).read() else ""
-            b = sh(f"g++ -std=c++17 -O1 -g -I{inc}/include {extra} {demo} -lpthread -o {exe}")
+            b = sh(f"g++ -std=c++17 -O1 -g {demo_flags} -I{inc}/include {extra} {demo} -lpthread -o {exe}")
             if b.returncode != 0:
                 res[label] = {"build_failed": b.stdout[-800:]}
                 continue
@@ -107,6 +110,8 @@ def main():
                 except Exception as e:  # noqa
                     rcs.append(-1)
             res[label] = {"exit_codes_3_runs": rcs, "tail": tail}
+            if demo_flags:
+                res[label]["extra_compile_flags"] = demo_flags
             os.unlink(exe)
         meta["steps"]["demo"] = res
     shutil.rmtree(pristine, ignore_errors=True)
